@@ -488,6 +488,7 @@ pub fn c01(ctx: &mut Ctx) {
     };
     run(ctx, bytes::s1_full(), Mode::All, false);
     run(ctx, bytes::s1_all_types(), Mode::All, false);
+    run(ctx, bytes::s1_long_padded(), Mode::All, false);
     run(ctx, bytes::dev1_space(bases.clone()), Mode::All, false);
     run(ctx, bytes::trunc_ext_space(bases.clone()), Mode::All, false);
     match ctx.tier {
